@@ -570,6 +570,12 @@ func runC18(r *Run) {
 		return
 	}
 
+	var scns []c18Scn
+	for c := 0; c < r.N; c++ {
+		scns = append(scns, c18GenScenario(r))
+	}
+	defer c18Clients(r, scns)
+
 	for c := 0; c < r.N; c++ {
 		// hashes + handshake
 		c18Hashes(r)
